@@ -173,6 +173,28 @@ func genLiveScn(t *rapid.T, big bool) liveScn {
 		c.RcvBuf = rapid.SampledFrom([]int{0, 2048, 4096, 16384, 65536}).Draw(t, "rcvbuf")
 		c.PaceUS = rapid.SampledFrom([]int{0, 0, 0, 20, 200}).Draw(t, "pace")
 		c.OneStep = rapid.IntRange(0, 2).Draw(t, "onestep") == 0
+		// bound the work of one connection by its number of steps, not by a clock: a stream of megabytes read
+		// one byte at a time with a pause after every read would take the better part of an hour
+		avg := func(xs []int) int {
+			sum := 0
+			for _, x := range xs {
+				sum += x
+			}
+			return sum/len(xs) + 1
+		}
+		perStepUS := 5 + c.PaceUS
+		if c.PaceUS > 0 {
+			perStepUS += 100 // a sleep is never that short
+		}
+		for _, tot := range []*int{&c.Total, &c.Back} {
+			steps := *tot/avg(c.Reads) + *tot/avg(c.Chunks)
+			if cost := steps * perStepUS; cost > 3000000 {
+				*tot = int(int64(*tot) * 3000000 / int64(cost))
+				if *tot < 1 {
+					*tot = 1
+				}
+			}
+		}
 		c.CloseAW = rapid.IntRange(0, 2).Draw(t, "closeAfterWrite") == 0
 		if c.CloseAW {
 			c.Back = 0
